@@ -368,13 +368,58 @@ def hex_shim(x):
     return builtins.hex(x)
 
 
-def decode_bytes(sb, encoding="utf-8", errors="strict"):
-    """Decoding symbolic bytes to str: concretise by forking (strings are outside symx).
+DECODE_MODE = {"mode": "placeholder"}
 
-    Only used by short text DPTs / DIB names; bounded by concretize()'s limit per octet, so harnesses restrict
-    such octets to a small symbolic alphabet or treat the cell as Unsupported.
-    """
+
+def decode_bytes(sb, encoding="utf-8", errors="strict"):
+    """Decoding symbolic bytes to str.  Strings are outside symx: by default the result is an opaque placeholder str
+    (total codecs only: latin_1, or any codec with errors='replace'/'ignore'); harnesses that care about the text set
+    DECODE_MODE['mode']='fork' to concretise every octet by forking instead."""
+    if not has_sym(sb.b):
+        return builtins.bytes(sb.b).decode(encoding, errors)
+    enc = encoding.lower().replace("-", "_")
+    total = enc in ("latin_1", "latin1", "iso_8859_1", "iso8859_1") or errors in ("replace", "ignore")
+    if DECODE_MODE["mode"] == "placeholder" and total:
+        return _symstr(SymBytes(sb.b), "text:" + enc)
     return builtins.bytes(concretize(e, limit=300) for e in sb.b).decode(encoding, errors)
+
+
+def address_hash_shim(x):
+    if builtins.isinstance(x, tuple) and len(x) == 2 and builtins.isinstance(x[0], type):
+        return builtins.hash(x[0])
+    return builtins.hash(x)
+
+
+class SymStr(str):
+    """A real str (digit-only placeholder) that remembers the symbolic bytes it renders (IPv4 / hex strings)."""
+    __slots__ = ("sym", "kind")
+
+
+def _symstr(sb, kind):
+    s = SymStr(ctx().placeholder(sb))
+    s.sym = sb
+    s.kind = kind
+    return s
+
+
+class socket_shim:
+    """inet_ntoa / inet_aton keep symbolic octets symbolic (the dotted string is a placeholder)."""
+    import socket as _real
+
+    def __getattr__(self, k):
+        return getattr(self._real, k)
+
+    def inet_ntoa(self, b):
+        if isinstance(b, SymBytes) and has_sym(b.b):
+            if len(b) != 4:
+                raise OSError("packed IP wrong length for inet_ntoa")
+            return _symstr(SymBytes(b.b), "ip")
+        return self._real.inet_ntoa(builtins.bytes(list(b)) if isinstance(b, SymBytes) else b)
+
+    def inet_aton(self, s):
+        if isinstance(s, SymStr) and s.kind == "ip":
+            return SymBytes(s.sym.b)
+        return self._real.inet_aton(s)
 
 
 SHIMS = {
